@@ -830,7 +830,40 @@ def check_exits_covered(u):
     return obligations, [], samples
 
 
-CHECKS = {"exits_covered": check_exits_covered, "sub_lag_stops": check_sub_lag_stops, "single_snapshot": check_single_snapshot, "offer_loops": check_offer_loops, "speedy_prealloc": check_speedy_prealloc, "from_conn": check_from_conn, "sql_actor_scoping": check_sql_actor_scoping, "local_write_sequence": check_local_write_sequence, "insert_local_changes": check_insert_local_changes, "authz_layer": check_authz_layer, "readonly_guard": check_readonly_guard, "read_pool": check_read_pool}
+def check_seq_range_guard(u):
+    """C10: the `seqs` range of a Changeset::Full comes off the wire unchecked (the decoders accept any start/end).  rangemap asserts
+    start <= end on insert/remove, so handle_changes must pass over an inverted range BEFORE it touches the seen-cache or the queue —
+    otherwise one malformed changeset panics the ingest task and nothing offered afterwards is ever applied.  (This is the precondition
+    "seq ranges well-ordered" of the Verus fragments F10.1/F10.3, decided here on the text.)"""
+    file = u["file"]
+    src, msk, o, c = _fn_body(file, u["fn"])
+    body = msk[o:c]
+    obligations = ["inverted-seq-range-skipped-before-the-seen-cache-is-touched"]
+    failures = []
+    first_mut = re.search(r"\bseen\s*\.\s*entry\s*\(|\bqueue\s*\.\s*push_back\s*\(", body)
+    if not first_mut:
+        raise LostAnchor("handle_changes: no seen.entry( / queue.push_back( found")
+    guard = None
+    for m in re.finditer(r"\bif\b", body[:first_mut.start()]):
+        k = m.end()
+        while k < len(body) and body[k] != "{":
+            if body[k] in "([":
+                k = match_delim(body, k)
+            k += 1
+        cond = re.sub(r"[\s\*\(\)&]", "", body[m.end():k])
+        if re.search(r"seqs\.end<seqs\.start|seqs\.start>seqs\.end", cond):
+            e = match_delim(body, k)
+            if re.search(r"\bcontinue\b", body[k:e]):
+                guard = o + m.start()
+                break
+    if guard is None:
+        failures.append((obligations[0], _line(src, o + first_mut.start()),
+                         "no `if … seqs.end() < seqs.start() { … continue }` before the first use of the seen-cache/queue: an inverted range reaches "
+                         "RangeInclusiveSet::extend/remove, whose assert panics the ingest task"))
+    return obligations, failures, ["%s:%d guard on inverted seq ranges precedes line %d" % (file, _line(src, guard) if guard else 0, _line(src, o + first_mut.start()))]
+
+
+CHECKS = {"seq_range_guard": check_seq_range_guard, "exits_covered": check_exits_covered, "sub_lag_stops": check_sub_lag_stops, "single_snapshot": check_single_snapshot, "offer_loops": check_offer_loops, "speedy_prealloc": check_speedy_prealloc, "from_conn": check_from_conn, "sql_actor_scoping": check_sql_actor_scoping, "local_write_sequence": check_local_write_sequence, "insert_local_changes": check_insert_local_changes, "authz_layer": check_authz_layer, "readonly_guard": check_readonly_guard, "read_pool": check_read_pool}
 
 
 def run_unit(prop, u, tier, ctx, here):
